@@ -379,8 +379,91 @@ func c10Huge(c *Ctx) {
 	}
 }
 
+// c10Writer is the writer of an Encoder under observation: while it holds the bytes it was handed, further library
+// calls are made (on this goroutine and on another one), and the bytes must still be what they were
+type c10Writer struct {
+	bad string
+	out bytes.Buffer
+}
+
+func (w *c10Writer) Write(p []byte) (int, error) {
+	snap := string(p)
+	var wg sync.WaitGroup
+	wg.Add(1)
+	go func() { defer wg.Done(); c10Churn(len(p) + 3) }()
+	c10Churn(len(p))
+	// outputs of the same size with other content, through the same kinds of calls
+	other := strings.Repeat("#", max(len(p)-8, 0))
+	json.Marshal(other)
+	var sink bytes.Buffer
+	e := json.NewEncoder(&sink)
+	e.Encode(other)
+	e.SetIndent("", " ")
+	e.Encode([]string{other})
+	wg.Wait()
+	if string(p) != snap && w.bad == "" {
+		i := 0
+		for i < len(snap) && p[i] == snap[i] {
+			i++
+		}
+		w.bad = fmt.Sprintf("%d bytes, first difference at offset %d: %q became %q", len(snap), i, clipS(snap[i:]), clipS(string(p[i:])))
+	}
+	w.out.WriteString(snap)
+	return len(p), nil
+}
+
+// c10EncoderHistories: every sequence of up to three Encode calls of one Encoder under changing settings (plain,
+// indented, prefixed; HTML escaping on and off) with small, medium and large values
+func c10EncoderHistories(c *Ctx) {
+	type setting struct {
+		prefix, indent string
+		html           bool
+	}
+	settings := []setting{{"", "", true}, {"", "  ", true}, {">", "\t", false}, {"", "", false}}
+	values := []any{map[string]any{"k": "v<>"}, []string{strings.Repeat("m", 5000)}, []any{1, bigPad, "end"}}
+	var seqs [][]int
+	for a := range settings {
+		seqs = append(seqs, []int{a})
+		for b := range settings {
+			seqs = append(seqs, []int{a, b})
+			for d := range settings {
+				seqs = append(seqs, []int{a, b, d})
+			}
+		}
+	}
+	for _, seq := range seqs {
+		for vi, val := range values {
+			w := &c10Writer{}
+			var ref bytes.Buffer
+			e, r := json.NewEncoder(w), stdjson.NewEncoder(&ref)
+			var err error
+			for _, si := range seq {
+				st := settings[si]
+				e.SetIndent(st.prefix, st.indent)
+				e.SetEscapeHTML(st.html)
+				r.SetIndent(st.prefix, st.indent)
+				r.SetEscapeHTML(st.html)
+				c.Eval(1)
+				if p := protect(func() { err = e.Encode(val) }); p != "" || err != nil {
+					w.bad = fmt.Sprintf("err=%v %s", err, p)
+					break
+				}
+				r.Encode(val)
+			}
+			if w.bad == "" && !bytes.Equal(w.out.Bytes(), ref.Bytes()) {
+				w.bad = "the bytes handed to the writer are not the encoding: " + clipS(w.out.String())
+			}
+			if w.bad != "" {
+				c.Diverge("C10", "Encoder.Encode(settings changed between calls; the writer makes further library calls)",
+					"the bytes handed to the writer unchanged while it holds them", fmt.Sprintf("settings %v value %d: %s", seq, vi, w.bad), "", c10WideCase{API: "Encoder histories", Val: -7})
+				return
+			}
+		}
+	}
+}
+
 func c10Wide(c *Ctx, shape *jShape) {
-	c10HugeOnce.Do(func() { c10Huge(c) })
+	c10HugeOnce.Do(func() { c10Huge(c); c10EncoderHistories(c) })
 	t := jTypeOf(shape)
 	r := newRng(c.Seed, "c10wide"+shape.String())
 	docs := c10Docs(shape, c.Seed, r, c.Tier)
@@ -417,6 +500,9 @@ func c10Wide(c *Ctx, shape *jShape) {
 
 func c10WideReplay(c *Ctx, k c10WideCase) {
 	if k.Shape == nil {
+		if k.Val == -7 {
+			c10EncoderHistories(c)
+		}
 		if k.Val > 100000 {
 			c10Huge(c)
 		}
